@@ -791,7 +791,7 @@ func genLong(rng *hx.RNG, shape int) *History {
 		// one whole-chain query per address set so that every window is touched
 		h.Ops = append(h.Ops, Op{K: "query", Q: &Qry{Addrs: []uint64{setA[0], setB[0]}, From: 0, To: uint64(height + 2)}})
 	}
-	addQueries(3, h1) // warms the cache with window 0
+	addQueries(2, h1) // warms the cache with window 0
 	// phase C: restart before the reorg
 	c := rng.Intn(10)
 	if shape == 0 || shape == 1 {
@@ -853,7 +853,7 @@ func genLong(rng *hx.RNG, shape int) *History {
 		h.Ops = buildTo(h.Ops, rng, cur, h2, at, setB, 1)
 		cur = h2
 	}
-	addQueries(4, cur)
+	addQueries(3, cur)
 	h.Ops = append(h.Ops, Op{K: "restart", G: false})
 	addQueries(2, cur)
 	return h
@@ -995,7 +995,7 @@ func shrink(c *hx.Ctx, or *hx.Oracle, h *History, class string, cfgs []pcfg) (*H
 	if best == nil {
 		return h, nil
 	}
-	budget := 400
+	budget := 250
 	for changed := true; changed && budget > 0; {
 		changed = false
 		for i := len(cur.Ops) - 1; i >= 0 && budget > 0; i-- {
@@ -1087,7 +1087,7 @@ func main() {
 	}
 
 	rng := hx.NewRNG(c.Seed)
-	nShort, nLong, nModel := 60, 1, 300
+	nShort, nLong, nModel := 50, 1, 300
 	if c.Thorough() {
 		nShort, nLong, nModel = 800, 24, 3000
 	}
